@@ -24,7 +24,13 @@
    replace_node_hit, replace_node_frame, replace_root_frame, interleave_text,
    replace_text_commutes (only side condition: no carriage return in the
    result), replace_root_frame_kids / replace_all_frame,
-   replace_text_general. *)
+   replace_text_general.
+   Fix D33 (replace_root_text skips elements that are not w:t / m:t):
+   replace_node_hit, replace_text_commutes and replace_text_general have the
+   additional hypothesis is_text_like e = true; new: replace_node_skips_invisible,
+   replace_node_leaf_invisible, rkids_replace_kids, needle_free_visible /
+   replace_node_frame_visible (the stronger frame); the needle_free frame
+   lemmas are unchanged. *)
 From Coq Require Import List NArith ZArith Bool Arith Lia Permutation.
 From Coq Require String.
 From D2P Require Import Str Err Xml TableTypes Tables Fmt Bullets Merge Collector Walk Iter
@@ -795,7 +801,7 @@ Lemma replace_node_AE : forall old new e eks,
   replace_node old new (AE e eks) =
     match e_text e with
     | Some (c :: tx) =>
-        if contains old (c :: tx) then
+        if (contains old (c :: tx) && is_text_like e)%bool then
           wuri <- of_opt KeyError (e_wuri e) ;;
           Ok (interleave (br_of e wuri)
                 (map (fun l => AE (with_text e l) eks) (split_nl (replace old new (c :: tx)))))
@@ -804,15 +810,60 @@ Lemma replace_node_AE : forall old new e eks,
     end.
 Proof. reflexivity. Qed.
 
+(* w:t and m:t are the text-like elements (fix D33: only their text is replaced) *)
+Lemma is_text_like_tag_TEXT : forall e,
+  str_eqb (e_ptag e) tag_TEXT = true -> is_text_like e = true.
+Proof.
+  intros e H. apply str_eqb_eq in H. unfold is_text_like. rewrite H. reflexivity.
+Qed.
+
+Lemma is_text_like_tag_TEXT_MATH : forall e,
+  str_eqb (e_ptag e) tag_TEXT_MATH = true -> is_text_like e = true.
+Proof.
+  intros e H. apply str_eqb_eq in H. unfold is_text_like. rewrite H. reflexivity.
+Qed.
+
+Lemma is_text_like_with_text : forall e l, is_text_like (with_text e l) = is_text_like e.
+Proof. reflexivity. Qed.
+
+(* the inner loop of replace_node is replace_kids *)
+Lemma rkids_replace_kids : forall old new ks, rkids old new ks = replace_kids old new ks.
+Proof.
+  intros old new ks. unfold replace_kids. induction ks as [|k r IH]; [reflexivity|].
+  cbn [rkids mapM]. change ((fix go (l : list anode) : res (list anode) :=
+    match l with
+    | [] => Ok []
+    | x :: r0 => a <- replace_node old new x ;; b <- go r0 ;; Ok (a ++ b)
+    end) r) with (rkids old new r). rewrite IH.
+  destruct (replace_node old new k) as [a|]; [|reflexivity]. simpl.
+  destruct (mapM (replace_node old new) r) as [xs|]; reflexivity.
+Qed.
+
 Lemma replace_node_hit : forall old new e eks c tx wuri,
-  e_text e = Some (c :: tx) -> contains old (c :: tx) = true -> e_wuri e = Some wuri ->
+  e_text e = Some (c :: tx) -> contains old (c :: tx) = true -> is_text_like e = true ->
+  e_wuri e = Some wuri ->
   replace_node old new (AE e eks) =
     Ok (interleave (br_of e wuri)
           (map (fun l => AE (with_text e l) eks) (split_nl (replace old new (c :: tx))))).
 Proof.
-  intros old new e eks c tx wuri Ht Hc Hw.
-  rewrite replace_node_AE, Ht, Hc, Hw. reflexivity.
+  intros old new e eks c tx wuri Ht Hc Hl Hw.
+  rewrite replace_node_AE, Ht, Hc, Hl, Hw. reflexivity.
 Qed.
+
+(* text that the extraction does not show (deleted text, field codes, ...) is
+   never replaced: only the children are visited (fix D33) *)
+Lemma replace_node_skips_invisible : forall old new e eks,
+  is_text_like e = false ->
+  replace_node old new (AE e eks) = (eks' <- replace_kids old new eks ;; Ok [AE e eks']).
+Proof.
+  intros old new e eks Hl. rewrite replace_node_AE, Hl, rkids_replace_kids.
+  destruct (e_text e) as [[|c tx]|]; try reflexivity.
+  rewrite andb_false_r. reflexivity.
+Qed.
+
+Lemma replace_node_leaf_invisible : forall old new e,
+  is_text_like e = false -> replace_node old new (AE e []) = Ok [AE e []].
+Proof. intros old new e Hl. rewrite replace_node_skips_invisible by exact Hl. reflexivity. Qed.
 
 Fixpoint needle_free (old : str) (t : anode) : bool :=
   match t with
@@ -828,6 +879,33 @@ Proof.
   intros old new k. induction k as [tl|e ks IH] using anode_ind2; intros Hn.
   - reflexivity.
   - cbn [needle_free] in Hn. apply andb_true_iff in Hn. destruct Hn as [Hn Hks].
+    apply negb_true_iff in Hn.
+    assert (Hgo : rkids old new ks = Ok ks).
+    { clear Hn. induction IH as [|k r Hk _ IHr]; [reflexivity|].
+      simpl in Hks. apply andb_true_iff in Hks. destruct Hks as [Hk1 Hr1].
+      simpl. rewrite (Hk Hk1). simpl. rewrite (IHr Hr1). reflexivity. }
+    rewrite replace_node_AE, Hgo.
+    destruct (e_text e) as [[|c tx]|]; try reflexivity.
+    rewrite Hn. reflexivity.
+Qed.
+
+(* the stronger frame of fix D33: the needle may occur in text that is not
+   shown (any element that is not w:t / m:t) *)
+Fixpoint needle_free_visible (old : str) (t : anode) : bool :=
+  match t with
+  | AX _ => true
+  | AE e ks =>
+      negb (match e_text e with Some (c :: tx) => contains old (c :: tx) | _ => false end
+            && is_text_like e)
+      && forallb (needle_free_visible old) ks
+  end.
+
+Lemma replace_node_frame_visible : forall old new k,
+  needle_free_visible old k = true -> replace_node old new k = Ok [k].
+Proof.
+  intros old new k. induction k as [tl|e ks IH] using anode_ind2; intros Hn.
+  - reflexivity.
+  - cbn [needle_free_visible] in Hn. apply andb_true_iff in Hn. destruct Hn as [Hn Hks].
     apply negb_true_iff in Hn.
     assert (Hgo : rkids old new ks = Ok ks).
     { clear Hn. induction IH as [|k r Hk _ IHr]; [reflexivity|].
@@ -898,13 +976,13 @@ Qed.
 
 Lemma replace_text_commutes : forall old new e eks c tx wuri nodes,
   str_eqb (e_local e) s_br = false -> e_text e = Some (c :: tx) ->
-  contains old (c :: tx) = true -> e_wuri e = Some wuri ->
+  contains old (c :: tx) = true -> is_text_like e = true -> e_wuri e = Some wuri ->
   no_cr (replace old new (c :: tx)) ->
   replace_node old new (AE e eks) = Ok nodes ->
   concat (map node_text nodes) = replace old new (c :: tx).
 Proof.
-  intros old new e eks c tx wuri nodes Hb Ht Hc Hw Hn H.
-  rewrite (replace_node_hit _ _ _ _ _ _ _ Ht Hc Hw) in H. inversion H; subst nodes.
+  intros old new e eks c tx wuri nodes Hb Ht Hc Hl Hw Hn H.
+  rewrite (replace_node_hit _ _ _ _ _ _ _ Ht Hc Hl Hw) in H. inversion H; subst nodes.
   rewrite interleave_text by exact Hb.
   apply split_nl_join; exact Hn.
 Qed.
@@ -912,12 +990,12 @@ Qed.
 (* without the side condition: the text is join "\n" (re.split(\r\n|\r|\n) ...) *)
 Lemma replace_text_general : forall old new e eks c tx wuri nodes,
   str_eqb (e_local e) s_br = false -> e_text e = Some (c :: tx) ->
-  contains old (c :: tx) = true -> e_wuri e = Some wuri ->
+  contains old (c :: tx) = true -> is_text_like e = true -> e_wuri e = Some wuri ->
   replace_node old new (AE e eks) = Ok nodes ->
   concat (map node_text nodes) = join [lf] (split_nl (replace old new (c :: tx))).
 Proof.
-  intros old new e eks c tx wuri nodes Hb Ht Hc Hw H.
-  rewrite (replace_node_hit _ _ _ _ _ _ _ Ht Hc Hw) in H. inversion H; subst nodes.
+  intros old new e eks c tx wuri nodes Hb Ht Hc Hl Hw H.
+  rewrite (replace_node_hit _ _ _ _ _ _ _ Ht Hc Hl Hw) in H. inversion H; subst nodes.
   apply interleave_text; exact Hb.
 Qed.
 
@@ -945,7 +1023,10 @@ Print Assumptions split_nl_empty.
 Print Assumptions split_nl_trailing_newline_kept.
 Print Assumptions split_nl_cr_becomes_lf.
 Print Assumptions replace_node_hit.
+Print Assumptions replace_node_skips_invisible.
+Print Assumptions replace_node_leaf_invisible.
 Print Assumptions replace_node_frame.
+Print Assumptions replace_node_frame_visible.
 Print Assumptions replace_root_frame_kids.
 Print Assumptions replace_root_frame.
 Print Assumptions replace_all_frame.
